@@ -13,7 +13,7 @@ import warnings
 
 import numpy as np
 
-from . import lib
+from . import lib, sweep
 from .lib import cbool, cnat, clist
 
 HEADER = 'From Coq Require Import List Bool.\nFrom PM Require Import C19Model.\nImport ListNotations.\n'
@@ -106,11 +106,23 @@ def snap(x):
 # arguments: a valid base argument for (target, op) with faults layered on top
 # ---------------------------------------------------------------------------
 FAULTS = ['readonly', 'type', 'units', 'numer', 'denom', 'kind', 'shape', 'derivdenom']
+# variations layered like faults: 'shape1' = an operand with axes but a single element (a fault only for a shapeless
+# target: it cannot be broadcast INTO shape ()); 'argunits' = the operand brings units to a target without units
+# (legal on its own - combined with a real fault the rejected operation must not leave the units behind)
+VARIATIONS = ['shape1', 'argunits']
 BADTYPES = [{'a': 1}, 'abc', None, object]       # the 'type' fault cycles through these
 INPLACE = ['iadd', 'isub', 'imul', 'itruediv', 'ifloordiv', 'imod', 'iand', 'ior', 'ixor']
 SETITEM = ['set_int', 'set_slice', 'set_mask', 'set_ellipsis', 'set_array']
 MUTATORS = INPLACE + SETITEM
 ARGFORMS = ['number', 'ndarray', 'object']
+
+
+# faults the property names as reasons for which an in-place operator "cannot be carried out": the operation must raise
+# (only the unambiguous pairs; e.g. x[i] = 2.5 into an integer object truncates by design, //= drops derivatives)
+_ARITH = ('iadd', 'isub', 'imul', 'itruediv', 'ifloordiv', 'imod')
+MUST_REJECT = {'shape': _ARITH, 'kind': ('iadd', 'isub', 'imul', 'ifloordiv', 'imod'), 'units': ('iadd', 'isub'),
+               'numer': ('iadd', 'isub'), 'denom': ('iadd', 'isub'), 'derivdenom': ('iadd', 'isub', 'imul', 'itruediv'),
+               'type': _ARITH}
 
 
 def base_arg(target, op, form, Pm):
@@ -209,6 +221,22 @@ def apply_fault(arg, fault, target, op, Pm, want_shape):
             item = arg.shape[len(arg.shape) - len(x.item):] if x.item else ()
             return np.ones(bad + tuple(x.item), dtype=arg.dtype), True
         return arg, False
+    if fault == 'shape1':
+        if tuple(want_shape) != () or op not in INPLACE:     # item assignment drops leading length-one axes (NumPy)
+            return arg, False
+        bad = (1,) if (len(op) % 2) else (1, 1)
+        if isinstance(arg, Pm.Qube):
+            vals = np.ones(bad + arg.item, dtype=np.asarray(arg._values_).dtype)
+            return type(arg)(vals, drank=len(arg.denom)), True
+        if isinstance(arg, np.ndarray):
+            return np.ones(bad + tuple(x.item), dtype=arg.dtype), True
+        return arg, False
+    if fault == 'argunits':
+        if isinstance(arg, Pm.Qube) and arg.UNITS_OK and x.UNITS_OK and x.units is None and arg.units is None:
+            a = arg.copy()
+            a.set_units(Pm.Units.KM)
+            return a, True
+        return arg, False
     if fault == 'derivdenom':
         if isinstance(arg, Pm.Qube) and 't' in x.derivs and arg.DERIVS_OK and x.derivs['t'].denom == ():
             a = arg.copy(recursive=False) if arg.derivs else arg.copy()
@@ -263,15 +291,16 @@ def do_mutation(x, op, arg):
 
 def gen_cases(rng, tier):
     cases = []
-    combos = [()] + [(f,) for f in FAULTS] + list(itertools.combinations(FAULTS, 2))
+    combos = [()] + [(f,) for f in FAULTS + VARIATIONS] + list(itertools.combinations(FAULTS, 2)) + \
+        [(v, f) for v in VARIATIONS for f in FAULTS if f not in ('units',)]
     for t in TARGETS:
         for op in MUTATORS:
             for form in ARGFORMS:
                 for faults in combos:
                     cases.append({'target': t, 'op': op, 'form': form, 'faults': list(faults)})
     if tier == 'quick':
-        keep = [c for c in cases if len(c['faults']) <= 1]
-        pairs = [c for c in cases if len(c['faults']) == 2]
+        keep = [c for c in cases if len(c['faults']) <= 1 or c['faults'][0] in VARIATIONS]
+        pairs = [c for c in cases if len(c['faults']) == 2 and c['faults'][0] not in VARIATIONS]
         rng.shuffle(pairs)
         cases = keep + pairs[:2500]
     return cases
@@ -297,7 +326,8 @@ def run_case(c, Pm):
     except Exception:
         return None
     applied = ['readonly'] if ro else []
-    for f in c['faults']:
+    order = [f for f in c['faults'] if f not in VARIATIONS] + [v for v in VARIATIONS if v in c['faults']]
+    for f in order:     # variations last: 'argunits' must survive the rebuilding of the operand by a fault
         if f == 'readonly':
             continue
         try:
@@ -460,6 +490,13 @@ def run(ctx):
         else:
             if 'readonly' in faults:
                 ctx.fail(dict(sig, what='mutator-accepted-on-readonly'), c, {'outcome': out})
+            else:
+                must = [f for f in faults if c['op'] in MUST_REJECT.get(f, ())]
+                if 'numer' in faults and c['op'] in ('imul', 'itruediv', 'ifloordiv', 'imod'):
+                    must = [f for f in must if f != 'shape']    # an operand with items: its axes may be re-read as a matrix
+                if must:
+                    ctx.fail(dict(sig, what='accepted-despite-fault', fault='+'.join(must)), c,
+                             {'outcome': out, 'applied': faults, 'changed': r['changed']})
         # correspondence for the modelled families
         if c['op'] in OPFAM and c['target'] in MODEL_TARGETS:
             obs = 'OOk' if out[0] == 'ok' else ('(OErr %s %s)' % (ERR_COQ.get(out[1], 'OtherErr'), cbool(r['changed'])))
@@ -522,8 +559,81 @@ def run(ctx):
         if out[0] == 'exc' and out[1] not in ALLOWED:
             ctx.fail({'what': 'wrong-exception-family', 'option_call': name, 'exc': out[1], 'site': out[2]}, c,
                      {'outcome': out})
+    # ---- the API sweep: a public call whose arguments are all of the documented types never crashes
+    sweep_part(ctx, Pm)
     ctx.exhaustive = ctx.tier == 'thorough'
     return ctx.finish()
+
+
+# exception families that mean "crash" (the property names AttributeError, NameError, RuntimeError; KeyError,
+# ZeroDivisionError, UnboundLocalError ... are of the same kind: no documented rejection raises them)
+def _in_scope_spec(pname, spec, mname):
+    t = spec[0]
+    if t == 'varargs':
+        return all(_in_scope_spec(pname, x, mname) for x in spec[1])
+    if t == 'mask':
+        return spec[1] != 'bad' and not (pname == 'antimask' and spec[1] == 'Boolean')
+    if t == 'nparr' and (pname in sweep.OBJ_PARAMS) and not mname.startswith('__'):
+        return False        # an ndarray in place of an object: documented for the operators only
+    if t == 'index':
+        return True
+    if t == 'lit':
+        v = spec[1]
+        if isinstance(v, str):
+            return v != 'bogus' and pname not in sweep.OBJ_PARAMS and pname not in ('units', 'arg', 'first', 'second')
+        if pname in sweep.OBJ_PARAMS or pname in ('derivs', 'units', 'classes'):
+            # a literal in place of an object: only numbers, and only for the operators (where numbers are documented)
+            if v is None:
+                return False
+            return mname.startswith('__') and isinstance(v, (int, float, bool))
+        return True
+    if t == 'cls':
+        return True
+    return True
+
+
+def in_scope(desc):
+    if desc['cls'] == 'Qube' and desc['name'] in ('__abs__', 'reciprocal', 'identity'):
+        return False        # the base class leaves these to its subclasses
+    if desc['name'] in ('from_matrix3_experimental', '__init__'):
+        return False
+    return all(_in_scope_spec(n, sp, desc['name']) for n, sp in desc['args'])
+
+
+def _c19_sweep_worker(chunk):
+    Pm = sweep.P()
+    out = []
+    n = 0
+    for d in chunk:
+        if not in_scope(d):
+            continue
+        n += 1
+        with warnings.catch_warnings():
+            warnings.simplefilter('ignore')
+            ev = sweep.execute(d, Pm)
+        if ev.ok or ev.exc is None:
+            continue
+        e = ev.exc
+        if isinstance(e, (TypeError, ValueError, IndexError)) or isinstance(e, sweep.SweepTimeout):
+            continue
+        name, site = lib.exc_family(e)
+        out.append((d, name, site, str(e)[:160]))
+    return n, out
+
+
+def sweep_part(ctx, Pm):
+    calls = sweep.call_list(Pm)
+    sel = sweep.select(calls, ctx.rng, ctx.tier)
+    res = sweep.run_parallel(sel, _c19_sweep_worker)
+    nrun = 0
+    for n, bad in res:
+        nrun += n
+        for d, name, site, msg in bad:
+            sig = {'what': 'crash-in-public-call', 'method': d['name'], 'cls': d['cls'], 'exc': name, 'site': site}
+            ctx.fail(sig, {'call': d}, {'exception': name, 'site': site, 'message': msg})
+    ctx.evaluations += nrun
+    ctx.count('sweep_calls_in_scope', nrun)
+    ctx.cov['sweep_calls'] = nrun
 
 
 MODEL_TARGETS = {'scalar_f': 'TScalarF', 'scalar_i': 'TScalarI', 'scalar_u': 'TScalarU', 'scalar_d': 'TScalarD',
@@ -544,6 +654,13 @@ def replay(path):
         print('result :', r)
         bad = (r['outcome'][0] == 'exc' and (r['outcome'][1] not in ALLOWED or r['changed'])) or \
               (r['outcome'][0] == 'ok' and 'readonly' in r['applied'])
+        print('property FAILS on this case' if bad else 'property holds on this case')
+        return 1 if bad else 0
+    if 'call' in c:
+        ev = sweep.execute(c['call'], Pm)
+        print('call  :', c['call'])
+        print('result:', 'ok' if ev.ok else 'raised %s: %s' % (type(ev.exc).__name__, ev.exc))
+        bad = (not ev.ok) and not isinstance(ev.exc, (TypeError, ValueError, IndexError))
         print('property FAILS on this case' if bad else 'property holds on this case')
         return 1 if bad else 0
     print(c)
